@@ -89,6 +89,7 @@ pub fn gen_cfg(t: &mut Tape, profile: Profile) -> RunCfg {
         p_ping_flush_cancel: 0,
         twin_same_timing: false,
         twin_poll_budget_us: 0,
+        twin_request_budget: false,
         twin_receive_max: 0,
         zero_time_io: false,
         p_withhold_ack: [0, 50, 200, 500][t.choose(4) as usize],
@@ -470,8 +471,58 @@ pub fn run_connection(conn: &mut Conn<'_, '_>, steps_left: &mut u32) -> ConnEnd 
                 if inside {
                     continue;
                 }
+                // now and then the transmit arena is first filled to within 0..5 bytes by one
+                // more unacknowledged QoS 1 publish: DISCONNECT must not depend on free space
+                if with(|w| !w.guards_arena() && w.tape.chance(1, 6)) {
+                    let spec = with(|w| {
+                        let ep = w.epoch;
+                        let used: usize = w
+                            .reqs
+                            .iter()
+                            .filter(|r| r.epoch == ep && !r.invalidated && r.accept != Accept::NotAccepted && r.qos > 0 && matches!(r.phase, Phase::AwaitAck))
+                            .map(|r| r.first_tx.as_ref().map_or_else(|| crate::codec::encode(&r.expected).len() + 2, |b| b.len()))
+                            .sum();
+                        let free = w.cfg.tx_len.saturating_sub(used);
+                        let want = free.saturating_sub(w.tape.choose(6) as usize);
+                        let mut s = gen_publish(w, 1);
+                        s.props.clear();
+                        s.correlate = None;
+                        s.payload_fails = false;
+                        let head = 2 + 2 + s.topic.len() + 2 + 1; // fixed header (short form), topic, id, property length
+                        let head = if want > 127 + 2 { head + 1 } else { head };
+                        if s.qos == 1 && want > head && want < 60_000 {
+                            s.payload = vec![0x44; want - head];
+                            w.probe("arena_filled_before_disconnect");
+                            Some(s)
+                        } else {
+                            None
+                        }
+                    });
+                    if let Some(s) = spec {
+                        let r = do_publish(conn, &s);
+                        // (a QoS 0 publish - after a downgrade - that was cut short means the
+                        // application gives the connection up, as everywhere else)
+                        if r.is_fatal() || !conn.is_connected() || with(|w| w.qos0_cancelled) {
+                            res = Some(r);
+                            was_disconnect = false;
+                        }
+                    }
+                }
+                if res.is_some() {
+                    // the fill publish ended the connection: judged like any other publish
+                } else {
                 let spec = with(gen_disconnect);
                 let r = do_disconnect(conn, &spec);
+                if r == Res::BufferTooSmall && spec.props.is_none() {
+                    // a DISCONNECT without properties has its own storage: it never lacks room
+                    with(|w| {
+                        w.violate(
+                            "C11",
+                            "plain-disconnect-refused/BufferTooSmall".into(),
+                            "disconnect() without properties returned BufferTooSmall and left the handle connected".into(),
+                        )
+                    });
+                }
                 // after disconnect() the handle is dead whatever the outcome, also when a
                 // contract-violating transport made a write return Ok(0)
                 was_disconnect = r != Res::Cancelled;
@@ -480,6 +531,7 @@ pub fn run_connection(conn: &mut Conn<'_, '_>, steps_left: &mut u32) -> ConnEnd 
                     return ConnEnd::Drop;
                 }
                 res = Some(r);
+                }
             }
             Step::DropConn => return ConnEnd::Drop,
             Step::ForgetConn => return ConnEnd::Forget,
